@@ -1,8 +1,9 @@
 (* FADT (component 26): the Impl model refines the Spec.
-   For every constructor argument and every finite sequence of builder calls inside the specification's domain, in both build
-   modes, the model accepts the history and the finalized image is byte for byte the reference image
-   (`ref_table "FACP" 6 hdr body`, body = the ACPI 6.5 layout of the values the calls determine).  Consequences: the Flags dword
-   of the image is the union of the requested flags' bits (C11), the profile byte is the last requested profile. *)
+   For every constructor argument and every finite sequence of builder calls and direct assignments of public body fields
+   (scalar fields: op 10, GAS fields: op 11) inside the specification's domain, in both build modes, the model accepts the
+   history and the finalized image is byte for byte the reference image (`ref_table "FACP" 6 hdr body`, body = the ACPI 6.5
+   layout in which every field holds the value last written to it).  Consequences: the Flags dword of the image is the last
+   directly assigned value (0 if none) united with the bits of the flags requested after it (C11). *)
 From Coq Require Import NArith ZArith List Lia Bool Arith.
 From ACPI Require Import Lib.Bytes Lib.Sx Lib.Machine Impl.Checksum Impl.Table Impl.Fields Impl.Run Impl.Madt Impl.Gas Impl.Fadt
   Spec.Layout Spec.GasS Spec.FadtS Proofs.ChecksumP Proofs.TableP Proofs.MadtP Proofs.FixedP Proofs.FadtP Proofs.RefFixedCommonP.
@@ -14,16 +15,22 @@ Open Scope N_scope.
 
 (* ---------- the abstraction: the FADTBuilder value that holds the Spec's values ---------- *)
 
+(* a GAS whose five fields hold the values written at table offsets off .. off+4 *)
+Definition gas_flds (v : fadt_vals) (off : N) : flds :=
+  [F 1 (val v off); F 1 (val v (off + 1)); F 1 (val v (off + 2)); F 1 (val v (off + 3)); F 8 (val v (off + 4))].
+
 (* the fields after the header (indices 30..128), holding the values of [v] *)
 Definition fadt_body_flds (v : fadt_vals) : flds :=
-  [F 4 (v_fw v); F 4 (v_dsdt v); F 1 0; F 1 (v_profile v); F 2 0; F 4 0; F 1 (v_enable v); F 1 (v_disable v); F 1 0; F 1 0;
-   F 4 0; F 4 0; F 4 0; F 4 0; F 4 0; F 4 0; F 4 (v_gpe0 v); F 4 (v_gpe1 v);
-   F 1 0; F 1 0; F 1 0; F 1 0; F 1 (v_gpe0_len v); F 1 (v_gpe1_len v); F 1 (v_gpe1_base v); F 1 0;
-   F 2 0; F 2 0; F 2 0; F 2 0; F 1 0; F 1 0; F 1 0; F 1 0; F 1 0; F 2 0; F 1 0; F 4 (v_flags v)]
-  ++ gas_default ++ [F 1 0; F 2 0; F 1 5; F 8 (v_xfw v); F 8 (v_xdsdt v)]
-  ++ gas_default ++ gas_default ++ gas_default ++ gas_default ++ gas_default
-  ++ gas_default ++ gas_default ++ gas_default ++ gas_default ++ gas_default
-  ++ [F 8 0].
+  [F 4 (val v 36); F 4 (val v 40); F 1 0; F 1 (val v 45); F 2 (val v 46); F 4 (val v 48); F 1 (val v 52); F 1 (val v 53);
+   F 1 (val v 54); F 1 (val v 55);
+   F 4 (val v 56); F 4 (val v 60); F 4 (val v 64); F 4 (val v 68); F 4 (val v 72); F 4 (val v 76); F 4 (val v 80); F 4 (val v 84);
+   F 1 (val v 88); F 1 (val v 89); F 1 (val v 90); F 1 (val v 91); F 1 (val v 92); F 1 (val v 93); F 1 (val v 94); F 1 (val v 95);
+   F 2 (val v 96); F 2 (val v 98); F 2 (val v 100); F 2 (val v 102); F 1 (val v 104); F 1 (val v 105); F 1 (val v 106);
+   F 1 (val v 107); F 1 (val v 108); F 2 (val v 109); F 1 0; F 4 (val v 112)]
+  ++ gas_flds v 116 ++ [F 1 (val v 128); F 2 (val v 129); F 1 (val v 131); F 8 (val v 132); F 8 (val v 140)]
+  ++ gas_flds v 148 ++ gas_flds v 160 ++ gas_flds v 172 ++ gas_flds v 184 ++ gas_flds v 196
+  ++ gas_flds v 208 ++ gas_flds v 220 ++ gas_flds v 232 ++ gas_flds v 244 ++ gas_flds v 256
+  ++ [F 8 (val v 268)].
 
 (* the whole struct, with checksum byte [c] *)
 Definition fadt_flds (oem tbl : list N) (orev c : N) (v : fadt_vals) : flds :=
@@ -56,6 +63,42 @@ Proof.
   - repeat (destruct i as [|i]; try reflexivity; destruct i as [i|i|]; try reflexivity).
 Qed.
 
+(* direct assignment of scalar field k: the Spec writes at the field's offset what the model stores in the field *)
+Lemma fadt_assign_sim oem tbl orev c v k x : length oem = 6%nat -> length tbl = 8%nat ->
+  match fadt_assign v k x with
+  | Some v' => fadt_assign_m (fadt_flds oem tbl orev c v) k x = Some (fadt_flds oem tbl orev c v')
+  | None => True
+  end.
+Proof.
+  intros Ho Ht.
+  destruct oem as [|o0 [|o1 [|o2 [|o3 [|o4 [|o5 [|]]]]]]]; try discriminate.
+  destruct tbl as [|t0 [|t1 [|t2 [|t3 [|t4 [|t5 [|t6 [|t7 [|]]]]]]]]]; try discriminate.
+  unfold fadt_assign, fadt_assign_m. generalize (N.to_nat k) as n. intros n.
+  do 42 (destruct n as [|n];
+         [cbn [nth_error fadt_scalars FADT_ASSIGNABLE];
+          match goal with |- match (if ?b then _ else _) with _ => _ end => destruct b eqn:Hx end; [|exact I];
+          apply N.ltb_lt in Hx; rewrite (N.mod_small _ _ Hx); reflexivity|]).
+  destruct n; exact I.
+Qed.
+
+(* direct assignment of GAS field g *)
+Lemma fadt_assign_gas_sim oem tbl orev c v g sp bw bo ac addr : length oem = 6%nat -> length tbl = 8%nat ->
+  match fadt_assign_gas v g sp bw bo ac addr with
+  | Some v' => fadt_assign_gas_m (fadt_flds oem tbl orev c v) g sp bw bo ac addr = Some (fadt_flds oem tbl orev c v')
+  | None => True
+  end.
+Proof.
+  intros Ho Ht.
+  destruct oem as [|o0 [|o1 [|o2 [|o3 [|o4 [|o5 [|]]]]]]]; try discriminate.
+  destruct tbl as [|t0 [|t1 [|t2 [|t3 [|t4 [|t5 [|t6 [|t7 [|]]]]]]]]]; try discriminate.
+  unfold fadt_assign_gas, fadt_assign_gas_m. generalize (N.to_nat g) as n. intros n.
+  do 11 (destruct n as [|n];
+         [cbn [nth_error fadt_gas_offs FADT_GAS_FIELDS];
+          match goal with |- match (if ?b then _ else _) with _ => _ end => destruct b end; [|exact I];
+          reflexivity|]).
+  destruct n; exact I.
+Qed.
+
 (* whenever the Spec accepts the call on the values [v], the model accepts it on the abstraction of [v] and reaches the
    abstraction of the Spec's new values *)
 Lemma fadt_builder_sim oem tbl orev c v o : length oem = 6%nat -> length tbl = 8%nat ->
@@ -65,14 +108,15 @@ Lemma fadt_builder_sim oem tbl orev c v o : length oem = 6%nat -> length tbl = 8
   end.
 Proof.
   intros Ho Ht.
+  pose proof (fun k x => fadt_assign_sim oem tbl orev c v k x Ho Ht) as Hscalar.
+  pose proof (fun g sp bw bo ac addr => fadt_assign_gas_sim oem tbl orev c v g sp bw bo ac addr Ho Ht) as Hgas.
   destruct oem as [|o0 [|o1 [|o2 [|o3 [|o4 [|o5 [|]]]]]]]; try discriminate.
   destruct tbl as [|t0 [|t1 [|t2 [|t3 [|t4 [|t5 [|t6 [|t7 [|]]]]]]]]]; try discriminate.
-  destruct v as [fw xfw dsdt xdsdt en dis flags g0 g1 l0 l1 gb p].
   unfold fadt_apply, fadt_builder.
   repeat (match goal with
           | |- match (match ?x with _ => _ end) with _ => _ end => destruct x eqn:?
           end; try exact I);
-  try reflexivity.
+  try reflexivity; try apply Hscalar; try apply Hgas.
   (* flag(i) *)
   match goal with E : flag_ref ?i = Some _ |- _ => rewrite (flag_bits_ref i), E end.
   reflexivity.
@@ -88,34 +132,13 @@ Proof.
   - inversion H; subst. reflexivity.
   - destruct (fadt_apply v o) as [v1|] eqn:Ea; [|discriminate].
     pose proof (fadt_builder_sim oem tbl orev c v o Ho Ht) as Hb. rewrite Ea in Hb.
-    destruct o as [n|l]; [destruct v; discriminate Ea|].
+    destruct o as [n|l]; [discriminate Ea|].
     cbn [run_steps]. unfold fadt_step. rewrite Hb. cbn [option_bind]. apply IH. exact H.
 Qed.
 
 (* ---------- the finalized image ---------- *)
 
-(* the reference layout of the body (the field table of Spec/FadtS.v `fadt_body`) *)
-Definition fadt_layout (v : fadt_vals) : layout :=
-    ([L 36 4 (v_fw v); L 40 4 (v_dsdt v); L 44 1 0; L 45 1 (v_profile v);
-      L 46 2 0; L 48 4 0; L 52 1 (v_enable v); L 53 1 (v_disable v);
-      L 54 1 0; L 55 1 0;
-      L 56 4 0; L 60 4 0; L 64 4 0; L 68 4 0;
-      L 72 4 0; L 76 4 0; L 80 4 (v_gpe0 v); L 84 4 (v_gpe1 v);
-      L 88 1 0; L 89 1 0; L 90 1 0; L 91 1 0;
-      L 92 1 (v_gpe0_len v); L 93 1 (v_gpe1_len v); L 94 1 (v_gpe1_base v);
-      L 95 1 0; L 96 2 0; L 98 2 0; L 100 2 0;
-      L 102 2 0; L 104 1 0; L 105 1 0; L 106 1 0;
-      L 107 1 0; L 108 1 0; L 109 2 0; L 111 1 0;
-      L 112 4 (v_flags v)]
-     ++ gas0 116
-     ++ [L 128 1 0; L 129 2 0; L 131 1 5;
-         L 132 8 (v_xfw v); L 140 8 (v_xdsdt v)]
-     ++ gas0 148 ++ gas0 160 ++ gas0 172
-     ++ gas0 184 ++ gas0 196 ++ gas0 208
-     ++ gas0 220 ++ gas0 232 ++ gas0 244
-     ++ gas0 256
-     ++ [L 268 8 0]).
-
+(* the reference layout of the body (Spec/FadtS.v `fadt_layout`) assembles for all values *)
 Lemma fadt_body_layout v : fadt_body v = Some (assemble (fadt_layout v)).
 Proof. reflexivity. Qed.
 
@@ -220,32 +243,90 @@ Definition spec_flag_call (o : sx) : list N :=
   | _ => []
   end.
 
-Lemma fadt_apply_flags v o v' : fadt_apply v o = Some v' ->
-  v_flags v' = fold_left N.lor (spec_flag_call o) (v_flags v).
+(* the Spec's tables: entry 35 of the scalar fields is the Flags dword at offset 112, no other assignable field and no
+   GAS sub-field starts there *)
+Lemma fadt_scalars_flags : forall n off w, nth_error fadt_scalars n = Some (off, w) ->
+  (n = 35%nat /\ off = 112) \/ (n <> 35%nat /\ off <> 112).
 Proof.
-  destruct v as [fw xfw dsdt xdsdt en dis flags g0 g1 l0 l1 gb p].
-  unfold fadt_apply, spec_flag_call.
+  intros n.
+  do 42 (destruct n as [|n];
+         [cbn [nth_error fadt_scalars]; intros off w Hn; inversion Hn; subst off w; clear Hn;
+          ((left; split; reflexivity) || (right; split; discriminate))|]).
+  intros off w Hn. destruct n; discriminate Hn.
+Qed.
+
+Lemma fadt_gas_offs_flags : forall n off, nth_error fadt_gas_offs n = Some off -> 116 <= off.
+Proof.
+  intros n.
+  do 11 (destruct n as [|n]; [cbn [nth_error fadt_gas_offs]; intros off Hn; inversion Hn; subst off; clear Hn; lia|]).
+  intros off Hn. destruct n; discriminate Hn.
+Qed.
+
+Lemma val_cons_other off x v o : off <> o -> val ((off, x) :: v) o = val v o.
+Proof. intros H. cbn [val]. destruct (N.eqb_spec off o); [contradiction|reflexivity]. Qed.
+
+Lemma flags_k_match {A} (n : N) (a b : A) : n <> 35 -> match n with 35 => a | _ => b end = b.
+Proof.
+  intros H. destruct n as [|p]; [reflexivity|].
+  repeat (try reflexivity; match goal with q : positive |- _ => destruct q end).
+  exfalso; apply H; reflexivity.
+Qed.
+
+(* one operation of the Spec seen from the Flags value (offset 112) *)
+Lemma fadt_apply_flags v o v' : fadt_apply v o = Some v' ->
+  val v' 112 = match flags_assigned o with
+               | Some x => x
+               | None => fold_left N.lor (spec_flag_call o) (val v 112)
+               end.
+Proof.
+  unfold fadt_apply, spec_flag_call, flags_assigned.
   repeat (match goal with
           | |- match ?x with _ => _ end = Some _ -> _ => destruct x eqn:?
           end; try discriminate);
-  intros [= <-]; reflexivity.
+  try (intros [= <-]; reflexivity).
+  - (* a GAS field *)
+    unfold fadt_assign_gas.
+    match goal with |- match nth_error fadt_gas_offs ?n with _ => _ end = _ -> _ =>
+      destruct (nth_error fadt_gas_offs n) as [off|] eqn:En; [|discriminate] end.
+    match goal with |- (if ?b then _ else _) = _ -> _ => destruct b; [|discriminate] end.
+    intros [= <-]. pose proof (fadt_gas_offs_flags _ _ En) as Hoff.
+    rewrite !val_cons_other by lia. reflexivity.
+  - (* a scalar field *)
+    unfold fadt_assign.
+    match goal with |- match nth_error fadt_scalars (N.to_nat ?k) with _ => _ end = _ -> _ =>
+      rename k into kk; destruct (nth_error fadt_scalars (N.to_nat kk)) as [[off w]|] eqn:En; [|discriminate] end.
+    match goal with |- (if ?b then _ else _) = _ -> _ => destruct b; [|discriminate] end.
+    intros [= <-]. destruct (fadt_scalars_flags _ _ _ En) as [[Hk Hoff]|[Hk Hoff]].
+    + apply (f_equal N.of_nat) in Hk. rewrite N2Nat.id in Hk. change (N.of_nat 35) with 35 in Hk. subst kk off. reflexivity.
+    + rewrite flags_k_match by (intros ->; apply Hk; reflexivity). cbn [fold_left]. apply val_cons_other. exact Hoff.
 Qed.
 
 Lemma fadt_fold_flags ops : forall v v', fadt_fold v ops = Some v' ->
-  v_flags v' = fold_left N.lor (concat (map spec_flag_call ops)) (v_flags v).
+  val v' 112 = fold_left N.lor (concat (map spec_flag_call (snd (flags_cut ops))))
+                         (match fst (flags_cut ops) with Some x => x | None => val v 112 end).
 Proof.
   induction ops as [|o ops IH]; intros v v' H; cbn [fadt_fold] in H.
   - inversion H; subst. reflexivity.
   - destruct (fadt_apply v o) as [v1|] eqn:Ea; [|discriminate].
-    cbn [map concat]. rewrite fold_left_app, <- (fadt_apply_flags _ _ _ Ea). now apply IH.
+    pose proof (fadt_apply_flags _ _ _ Ea) as H1. specialize (IH v1 v' H).
+    cbn [flags_cut]. destruct (flags_cut ops) as [[x|] post] eqn:Ec; cbn [fst snd] in *.
+    + exact IH.
+    + destruct (flags_cut_none_inv _ _ Ec) as [-> _].
+      destruct (flags_assigned o) as [x|]; cbn [fst snd].
+      * rewrite IH, H1. reflexivity.
+      * rewrite IH, H1. cbn [map concat]. rewrite fold_left_app. reflexivity.
 Qed.
 
 (* C11 through the refinement: in every in-domain history, the Flags dword (offset 112) of the MODEL's finalized image is the
-   union of the bits of the flags requested, whatever the order, the repetitions and the other builder calls *)
+   value of the last direct assignment `b.flags = v` (op (10 35 v); 0 when the history has none) united with the bits of the
+   flags requested by the flag() calls made after that assignment ((base, post) = flags_cut ops, Proofs/FadtP.v), whatever
+   the order, the repetitions and the other builder calls and assignments *)
 Corollary fadt_refines_flags md ctor ops r :
   ts_image fadt_spec ctor ops = Some r -> fadt_ctor_bytes ctor ->
   exists f0 f, fadt_new ctor = Some f0 /\ run_steps (fadt_step md) f0 ops = Some f /\
-               field_at (fadt_image f) 112 4 = fold_left N.lor (concat (map spec_flag_call ops)) 0 mod 2 ^ 32.
+               field_at (fadt_image f) 112 4 =
+               fold_left N.lor (concat (map spec_flag_call (snd (flags_cut ops))))
+                         (match fst (flags_cut ops) with Some v => v | None => 0 end) mod 2 ^ 32.
 Proof.
   intros H Hb. destruct (fadt_refines md ctor ops r H Hb) as (f0 & f & Hn & Hr & Hi).
   exists f0, f. split; [exact Hn|]. split; [exact Hr|].
@@ -257,6 +338,71 @@ Proof.
   rewrite flag_bits_ref. reflexivity.
 Qed.
 
+(* the two readings: no direct assignment of `flags` in the history: the union of all the flags requested (the statement
+   before the vocabulary had assignments); a last assignment `flags = v` followed by [post]: v united with post's flags *)
+Corollary fadt_refines_flags_no_assign md ctor ops r :
+  ts_image fadt_spec ctor ops = Some r -> fadt_ctor_bytes ctor -> no_flags_assignment ops ->
+  exists f0 f, fadt_new ctor = Some f0 /\ run_steps (fadt_step md) f0 ops = Some f /\
+               field_at (fadt_image f) 112 4 = fold_left N.lor (concat (map spec_flag_call ops)) 0 mod 2 ^ 32.
+Proof.
+  intros H Hb Hn. destruct (fadt_refines_flags md ctor ops r H Hb) as (f0 & f & H1 & H2 & H3).
+  exists f0, f. rewrite (flags_cut_none ops Hn) in H3. auto.
+Qed.
+
+Corollary fadt_refines_flags_after_assign md ctor pre v post r :
+  ts_image fadt_spec ctor (pre ++ SL [SA 10; SA 35; SA v] :: post) = Some r -> fadt_ctor_bytes ctor ->
+  no_flags_assignment post ->
+  exists f0 f, fadt_new ctor = Some f0 /\ run_steps (fadt_step md) f0 (pre ++ SL [SA 10; SA 35; SA v] :: post) = Some f /\
+               field_at (fadt_image f) 112 4 = fold_left N.lor (concat (map spec_flag_call post)) v mod 2 ^ 32.
+Proof.
+  intros H Hb Hn. destruct (fadt_refines_flags md ctor _ r H Hb) as (f0 & f & H1 & H2 & H3).
+  exists f0, f. rewrite (flags_cut_last pre v post Hn) in H3. auto.
+Qed.
+
+(* ---------- non-vacuity: a history mixing builder calls, direct assignments and observations ----------
+   dsdt_64, flag(Wbinvd), sci_int = 9, hypervisor_vendor_identity with a non-zero upper half, x_pm1a_evt_blk = GAS::new(SystemIo,
+   32, 0, DwordAccess, 0x600), flags = 0x00100000 (dropping Wbinvd), flag(Headless), fadt_minor_version = 4, dsdt = 0x1234 (direct:
+   X_DSDT keeps the dsdt_64 value), gpe_info, gpe1_base = 7 (direct, after gpe_info): the Spec accepts it, the model's case
+   entry point emits the reference image at each of the three observations, the image sums to 0, carries every value at its
+   ACPI 6.5 offset, and its last four bytes are the upper half of the vendor identity. *)
+Definition fadt_example_ctor : sx :=
+  SL [SL [SA 79; SA 69; SA 77; SA 95; SA 73; SA 68]; SL [SA 84; SA 65; SA 66; SA 76; SA 69; SA 95; SA 73; SA 68]; SA 1].
+Definition fadt_example_ops1 : list sx :=
+  [SL [SA 2; SA 0x800000000000]; SL [SA 7; SA 0]; SL [SA 10; SA 3; SA 9]; SL [SA 10; SA 41; SA 0xA1B2C3D400000005]].
+Definition fadt_example_ops2 : list sx :=
+  [SL [SA 11; SA 1; SA 1; SA 32; SA 0; SA 3; SA 0x600]; SL [SA 10; SA 35; SA 0x100000]; SL [SA 7; SA 12]].
+Definition fadt_example_ops3 : list sx :=
+  [SL [SA 10; SA 38; SA 4]; SL [SA 10; SA 1; SA 0x1234]; SL [SA 8; SA 0x1800; SA 0x1900; SA 32; SA 32; SA 16]; SL [SA 10; SA 23; SA 7]].
+Definition fadt_example_ops : list sx := fadt_example_ops1 ++ fadt_example_ops2 ++ fadt_example_ops3.
+
+Example fadt_refines_nonvacuous :
+  exists r1 r2 r,
+    ts_image fadt_spec fadt_example_ctor fadt_example_ops1 = Some r1 /\
+    ts_image fadt_spec fadt_example_ctor (fadt_example_ops1 ++ fadt_example_ops2) = Some r2 /\
+    ts_image fadt_spec fadt_example_ctor fadt_example_ops = Some r /\
+    (forall md, exists evs1 evs2 evs3,
+        fadt_case md (SL (fadt_example_ctor :: fadt_example_ops1 ++ [SA 1] ++ fadt_example_ops2 ++ [SA 1]
+                                            ++ fadt_example_ops3 ++ [SA 1]))
+        = evs1 ++ [EvBytes r1] ++ evs2 ++ [EvBytes r2] ++ evs3 ++ [EvBytes r]) /\
+    length r = 276%nat /\ sum8 r = 0 /\
+    field_at r 46 2 = 9 /\                                  (* SCI_INT *)
+    field_at r 40 4 = 0x1234 /\ field_at r 140 8 = 0x800000000000 /\     (* DSDT (direct), X_DSDT (dsdt_64) *)
+    field_at r 112 4 = 0x101000 /\                          (* Flags: assigned HwReducedAcpi, then flag(Headless); Wbinvd gone *)
+    field_at r 131 1 = 4 /\                                 (* FADT minor version *)
+    field_at r 94 1 = 7 /\ field_at r 92 1 = 32 /\          (* GPE1_BASE (direct, last writer), GPE0_BLK_LEN (gpe_info) *)
+    firstn 12 (skipn 148 r) = [1; 32; 0; 3; 0; 6; 0; 0; 0; 0; 0; 0] /\    (* X_PM1a_EVT_BLK *)
+    field_at r 268 8 = 0xA1B2C3D400000005 /\ skipn 272 r = [0xD4; 0xC3; 0xB2; 0xA1] /\
+    field_at r1 112 4 = 1 /\ field_at r2 112 4 = 0x101000.
+Proof.
+  eexists; eexists; eexists.
+  split; [vm_compute; reflexivity|]. split; [vm_compute; reflexivity|]. split; [vm_compute; reflexivity|].
+  split.
+  - intros md. exists [EvNum 0; EvNum 0; EvNum 0; EvNum 0], [EvNum 0; EvNum 0; EvNum 0], [EvNum 0; EvNum 0; EvNum 0; EvNum 0].
+    destruct md; vm_compute; reflexivity.
+  - vm_compute. repeat split; reflexivity.
+Qed.
+
 Print Assumptions fadt_refines.
 Print Assumptions fadt_refines_refuted.
 Print Assumptions fadt_refines_flags.
+Print Assumptions fadt_refines_nonvacuous.
